@@ -396,12 +396,15 @@ class HistogramND(HistogramBase):
             raise ValueError(
                 f"Expecting array with {self.ndim} columns, {values_array.shape[1]} found."
             )
-        if dropna:
-            values_array = values_array[~np.isnan(values_array).any(axis=1)]
         if weights is not None:
             weights = np.asarray(weights)
             # TODO: Check for weights size?
             self._coerce_dtype(weights.dtype)
+        if dropna:
+            not_na = ~np.isnan(values_array).any(axis=1)
+            values_array = values_array[not_na]
+            if weights is not None and weights.shape == not_na.shape:
+                weights = weights[not_na]
         for i, binning in enumerate(self._binnings):
             if binning.is_adaptive():
                 bin_map = binning.force_bin_existence(
